@@ -29,7 +29,7 @@ import (
 var c12Tokens = []string{"a", "&", "=", "#", "+", "%", "%26", " ", "\"", "'", "<", ";", "?", "/", "é", "\U0001F600", "\r\n", "&SAMLRequest=x", "&SigAlg=x", "%zz", "\t"}
 
 // "resploc": the IdP's logout endpoints also advertise a ResponseLocation (where logout RESPONSES may be sent); requests still go to Location
-var c12Endpoints = []struct{ name, suffix string }{{"plain", ""}, {"q1", "?a=b"}, {"q2", "?a=b&c=d%26e"}, {"trailing-q", "?"}, {"resploc", ""}}
+var c12Endpoints = []struct{ name, suffix string }{{"plain", ""}, {"q1", "?a=b"}, {"q2", "?a=b&c=d%26e"}, {"trailing-q", "?"}, {"resploc", ""}, {"port", ":8443"}}
 
 var c12Messages = []string{"authn-redirect", "authn-post", "logoutreq-redirect", "logoutreq-post", "logoutresp-redirect", "logoutresp-post"}
 
@@ -63,7 +63,10 @@ type c12Cfg struct {
 	entity   bool
 	endpoint int
 	artifact bool // the AuthnRequest asks for its response over HTTP-Artifact (what samlsp does with UseArtifactResponse)
+	zone     int  // the library clock returns the same instant in UTC (0), in -08:00 (1), in +05:30 (2): saml.TimeNow = time.Now on such a machine
 }
+
+var c12Zones = []*time.Location{time.UTC, time.FixedZone("", -8*3600), time.FixedZone("", 5*3600+1800)}
 
 var c12NIDFormats = []saml.NameIDFormat{"", saml.UnspecifiedNameIDFormat, saml.TransientNameIDFormat, saml.EmailAddressNameIDFormat, saml.PersistentNameIDFormat}
 
@@ -72,12 +75,23 @@ func (c c12Cfg) String() string {
 	if c.artifact {
 		s += "/response-binding=artifact"
 	}
+	if c.zone != 0 {
+		s += "/clock-zone=" + []string{"UTC", "-08:00", "+05:30"}[c.zone]
+	}
 	return s
 }
 
+// c12URLs gives the IdP endpoints of a configuration; the "port" form names an explicit port in the authority.
+func c12URLs(cf c12Cfg) (sso, slo string) {
+	e := c12Endpoints[cf.endpoint]
+	if e.name == "port" {
+		return strings.Replace(samlgen.IDPSSO, "idp.example.com", "idp.example.com"+e.suffix, 1), strings.Replace(samlgen.IDPSLO, "idp.example.com", "idp.example.com"+e.suffix, 1)
+	}
+	return samlgen.IDPSSO + e.suffix, samlgen.IDPSLO + e.suffix
+}
+
 func c12SP(cf c12Cfg) (*saml.ServiceProvider, string, string) {
-	sso := samlgen.IDPSSO + c12Endpoints[cf.endpoint].suffix
-	slo := samlgen.IDPSLO + c12Endpoints[cf.endpoint].suffix
+	sso, slo := c12URLs(cf)
 	o := harness.SPOpt{IDPSSOURL: sso, IDPSLOURL: slo, NoEntityID: !cf.entity}
 	if cf.sign {
 		o.SignMethod = dsig.RSASHA256SignatureMethod
@@ -153,8 +167,7 @@ func runC12(c *core.Ctx) {
 	}
 	spCache := map[string]*saml.ServiceProvider{}
 	getSP := func(cf c12Cfg) (*saml.ServiceProvider, string, string) {
-		sso := samlgen.IDPSSO + c12Endpoints[cf.endpoint].suffix
-		slo := samlgen.IDPSLO + c12Endpoints[cf.endpoint].suffix
+		sso, slo := c12URLs(cf)
 		if sp, ok := spCache[cf.String()]; ok {
 			return sp, sso, slo
 		}
@@ -187,13 +200,13 @@ func runC12(c *core.Ctx) {
 
 	c.Group("configuration-axes")
 	probes := []string{"", "rs", "a b&c=d#e+f%", "é\U0001F600", strings.Repeat("x", 81), "\"'<>"}
-	fields := []lattice.Field{{Name: "sign", N: 2}, {Name: "nid", N: len(c12NIDFormats)}, {Name: "force", N: 3}, {Name: "ctx", N: 2}, {Name: "entity", N: 2}, {Name: "ep", N: len(c12Endpoints)}, {Name: "respbinding", N: 2}}
+	fields := []lattice.Field{{Name: "sign", N: 2}, {Name: "nid", N: len(c12NIDFormats)}, {Name: "force", N: 3}, {Name: "ctx", N: 2}, {Name: "entity", N: 2}, {Name: "ep", N: len(c12Endpoints)}, {Name: "respbinding", N: 2}, {Name: "clockzone", N: 3}}
 	k := 2
 	if c.Thorough() {
 		k = -1
 	}
 	lattice.Enumerate(fields, k, func(idx []int, dev int) {
-		cf := c12Cfg{sign: idx[0] == 1, nidFmt: idx[1], force: idx[2], reqCtx: idx[3] == 1, entity: idx[4] == 0, endpoint: idx[5], artifact: idx[6] == 1}
+		cf := c12Cfg{sign: idx[0] == 1, nidFmt: idx[1], force: idx[2], reqCtx: idx[3] == 1, entity: idx[4] == 0, endpoint: idx[5], artifact: idx[6] == 1, zone: idx[7]}
 		for _, msg := range c12Messages {
 			for pi, pr := range probes {
 				msg, pr, pi := msg, pr, pi
@@ -271,6 +284,10 @@ func c12OneHold(t *core.T, getSP func(c12Cfg) (*saml.ServiceProvider, string, st
 	resultBinding := saml.HTTPPostBinding
 	if cf.artifact {
 		resultBinding = saml.HTTPArtifactBinding
+	}
+	if cf.zone != 0 {
+		harness.SetNow(samlgen.T0.In(c12Zones[cf.zone]))
+		defer harness.SetNow(samlgen.T0)
 	}
 	sp, sso, slo := getSP(cf)
 	rec := harness.NewCtr("c12" + key)
